@@ -149,7 +149,7 @@ theorem v2_pad_eats_record :
 /-! ### non-vacuity -/
 
 def exFile : V2File :=
-  ⟨[⟨7, 100, [0x61, 0x62]⟩, ⟨8, 100, [0xc3, 0xa9]⟩, ⟨7, 200, []⟩], 3,
+  ⟨[⟨7, 100, [0x61, 0x62], [0x73, 0x72, 0x76, 0, 0xff]⟩, ⟨8, 100, [0xc3, 0xa9], []⟩, ⟨7, 200, [], [0x78]⟩], 3,
    [List.replicate 64 255, List.range 64], 1, 24000000⟩
 
 theorem exFile_wf : exFile.WF := by
